@@ -1941,3 +1941,19 @@ package sio
 //@     requires haspid ==> ispointer(arg1) [C08.client.connect.presents.pid.and.offset.by.pointer]
 //@     update sent = sent + 1
 //@   ensures sent == 1 [C08.client.connect.always.sent]
+
+// C04 (server API): Server.FetchSockets(rooms...) selects by the rooms it is given: none named = the whole main
+// namespace, otherwise an operator aimed at exactly those rooms, in the order given.
+//@ func (*Server).FetchSockets
+//@   opt safety off
+//@   requires s != nil
+//@   ghost aimed int = 0
+//@   callsite (*Server).Of skip
+//@   callsite (*Namespace).FetchSockets skip
+//@     requires len(room) == 0 [C04.server.fetchsockets.unrestricted.only.without.rooms]
+//@   callsite (*Namespace).In skip
+//@     requires len(arg0) == len(room) && (forall k int :: 0 <= k && k < len(room) ==> arg0[k] == room[k]) [C04.server.fetchsockets.aims.at.the.given.rooms]
+//@     update aimed = aimed + 1
+//@   callsite (*BroadcastOperator).FetchSockets skip
+//@     requires aimed == 1 [C04.server.fetchsockets.through.the.aimed.operator]
+//@   loop 0 invariant len(rooms) == len(room) && forall k int :: 0 <= k && k <= rangeindex ==> rooms[k] == room[k]
